@@ -34,6 +34,7 @@ func VerifC30_exec() {
 	// server behaviour per command, by decision
 	loadOK := true
 	c := &verifClient{}
+	shaAnswer := -1 // what the last EVALSHA was answered with (0 = NOSCRIPT)
 	c.answer = func(argv []string) RedisResult {
 		switch argv[0] {
 		case "SCRIPT":
@@ -43,7 +44,8 @@ func VerifC30_exec() {
 			}
 			return NewResult(strmsg(typeBlobString, "0123456789abcdef0123456789abcdef01234567"), nil)
 		case "EVALSHA", "EVALSHA_RO":
-			switch verifChoose(4) {
+			shaAnswer = verifChoose(4)
+			switch shaAnswer {
 			case 0:
 				return verifErrReply("NOSCRIPT No matching script. Please use EVAL.")
 			case 1:
@@ -95,6 +97,7 @@ func VerifC30_exec() {
 			verifAssert(nSha == 1, "EVAL is used only after EVALSHA was answered with NOSCRIPT")
 			prev := sent[len(sent)-2]
 			verifAssert(prev[0] == "EVALSHA" || prev[0] == "EVALSHA_RO", "EVAL directly follows the EVALSHA that failed with NOSCRIPT")
+			verifAssert(shaAnswer == 0, "the script is submitted a second time only after a NOSCRIPT reply (never after an error reply, a transport error or a timeout, when the first submission may have run)")
 			verifReach("fallback")
 		}
 		if !loadOK {
